@@ -113,7 +113,7 @@ def asan_tier(pid, env):
     try:
         zv = build_zv_asan()
         shutil.copy(os.path.join(VERIF, "known_findings.json"), work)
-        e2 = dict(env, VERIF_DIR=work, VERIF_TIER="quick", ASAN_OPTIONS="detect_leaks=0:abort_on_error=1:symbolize=1")
+        e2 = dict(env, VERIF_DIR=work, VERIF_TIER="quick", VERIF_ASAN_BUILD="1", ASAN_OPTIONS="detect_leaks=0:abort_on_error=1:symbolize=1:hard_rss_limit_mb=6000:max_allocation_size_mb=2048")
         if pid == "C04":
             e2.setdefault("C04_MAX_CAP", "65")  # exhausts under the sanitizer in about a minute (129 hits the engine's wall cap)
         for k in ("VERIF_ASAN_RESULT", "C04_MIRI_RESULT", "C04_MIRI", "VERIF_ASAN"):
@@ -124,6 +124,12 @@ def asan_tier(pid, env):
         res["rc"] = r.returncode
         lines = r.stdout.splitlines()
         at = next((i for i, l in enumerate(lines) if "ERROR: AddressSanitizer" in l), None)
+        if at is not None and any(w in lines[at] for w in ("out of memory", "allocation-size-too-big", "rss limit", "out-of-memory")):
+            # the sanitizer ran out of memory or refused a huge request: not an invalid access (the native tier has
+            # the heap oracle); a failure of this tier, not a verdict
+            res["machinery_error"] = "the AddressSanitizer run ended on a memory limit: " + lines[at][:300]
+            at = None
+            r.returncode = r.returncode if r.returncode not in (0, 1) else 2
         if at is not None:
             res["report"] = "\n".join(lines[at:at + 40])
         try:
@@ -136,7 +142,7 @@ def asan_tier(pid, env):
                 v = json.load(open(f)); res["violations"].append({"identity": v.get("identity", "?"), "what": v.get("what", "")[:1500]})
             except Exception:
                 pass
-        if r.returncode not in (0, 1) and at is None:
+        if r.returncode not in (0, 1) and at is None and "machinery_error" not in res:
             res["machinery_error"] = f"the AddressSanitizer build of the engine ended with status {r.returncode}: " + "\n".join(lines[-15:])[-1200:]
         if r.returncode == 1 and not res["violations"] and at is None:
             res["machinery_error"] = "the AddressSanitizer build of the engine exited 1 without a replay file: " + "\n".join(lines[-15:])[-1200:]
